@@ -6,6 +6,10 @@ extended grammar (exotic leaves inside composites go through the graph / context
 statement on the implementation over the extended constructor grammar (exhaustive to depth 1-2, sampled
 to depth 3): marshaller / unmarshaller / codec are constructed, unresolvable positions pass through,
 building twice and after clearing caches behaves alike.
+
+Round 3 (notes/C15.md): the shared sub-annotation stratum PARENT(C1[g], C2[g]) (c15_shared: tie + oracle), the
+no-op fallback oracle (a member with a resolvable annotation must not get the warned no-op), and rebuild
+histories in which only SOME caches are cleared (c15_hist: oracle; replay = annotation + cleared caches).
 """
 from __future__ import annotations
 
@@ -17,15 +21,19 @@ import typing
 import warnings
 
 import bridgetie
+import c15_hist
+import c15_shared
 import coregen
 import coremodel
 import coreprop
 import impl
 import lib
+import dispatchtie
 import universe
 
 COQ_TARGETS = ["theories/Props/C15.vo", "theories/Model/BuildTables.vo", "theories/Model/CoreTables.vo",
                "theories/Props/C05Bridge.vo", "theories/Model/GraphBridgeEq.vo"]
+COQ_TARGETS = COQ_TARGETS + [t for t in dispatchtie.COQ_TARGETS if t not in COQ_TARGETS]
 THEOREMS = ["C15_construction_total", "C15_passthrough", "C15_noop_only_at_passthrough", "C15_repeatable"]
 
 # leaves of the extended grammar that the model knows (tie + oracle)
@@ -124,9 +132,28 @@ def gen_value(rng, t, env, mod, depth=2):
         return coregen.gen_value(rng, t, env, mod, depth)
     if k == "seq":
         vals = [gen_value(rng, t[3], env, mod, depth - 1) for _ in range(rng.randint(0, 2) if depth > 0 else 0)]
+        if t[1] in ("KSet", "KFrozenset"):
+            try:
+                return universe.SEQ_PY[t[1]](coregen._dedupe_eq(vals))
+            except TypeError:               # members that cannot be hashed: only the empty set is a valid value
+                return universe.SEQ_PY[t[1]]()
         return universe.SEQ_PY[t[1]](vals)
     if k == "map":
-        return {f"k{i}": gen_value(rng, t[4], env, mod, depth - 1) for i in range(rng.randint(0, 2) if depth > 0 else 0)}
+        out = {}
+        for i in range(rng.randint(0, 2) if depth > 0 else 0):
+            key = f"k{i}"
+            if t[3] != ("leaf", "str"):     # the shared stratum puts generics in key position
+                try:
+                    cand = gen_value(rng, t[3], env, mod, depth - 1)
+                    hash(cand)
+                    key = cand
+                except TypeError:
+                    pass
+            out[key] = gen_value(rng, t[4], env, mod, depth - 1)
+        return out
+    if k == "name":
+        d = env["defs"][t[1]]
+        return getattr(mod, universe.cname(t[1]))(**{fn: gen_value(rng, ft, env, mod, depth - 1) for fn, ft, _ in d[3]})
     if k == "tuple":
         return tuple(gen_value(rng, x, env, mod, depth - 1) for x in t[2])
     if k == "union":
@@ -166,7 +193,57 @@ def build_groups(run):
                 rec.inputs.append((tag, x, g.add("u", ri, x)))
             records.append(rec)
         groups.append(g)
+    # round 3: the shared sub-annotation stratum (c15_shared): its own generator state, so that the cases above
+    # are what they were before
+    srng = random.Random(run.seed * 17 + 11)
+    specs, layers = c15_shared.specs(run.tier, srng)
+    model_specs = [s for s in specs if s[0] in c15_shared.BASIS]
+    shared = {"layers": layers, "specs": len(specs), "model": 0, "oracle_only": 0, "not_generated": 0,
+              "oracle_specs": [s for s in specs if s[0] not in c15_shared.BASIS]}
+    for i in range(0, len(model_specs), chunk):
+        env = {"module": coregen.new_module_name("c15s"), "defs": {}}
+        alloc = c15_shared.Alloc(env)
+        roots, labels = [], []
+        for s in model_specs[i:i + chunk]:
+            d = c15_shared.realise(s, alloc)
+            if d is None:
+                shared["not_generated"] += 1      # typing would rewrite it (nested / duplicate union members)
+                continue
+            roots.append(d)
+            labels.append(c15_shared.spec_label(s))
+        try:
+            g = coremodel.Group(env, roots, coreprop.suppressed())
+        except Exception as e:
+            run.notes.append(f"shared stratum: materialise failed: {e!r}")
+            continue
+        g.c15_labels = labels
+        shared["model"] += len(roots)
+        add_records(run, srng, g, records, values=1)
+        groups.append(g)
+        anns += g.roots
+    run._c15_shared = shared
     return groups, records, anns
+
+
+def add_records(run, rng, g, records, values=1):
+    for ri, r in enumerate(g.roots):
+        for _ in range(values):
+            try:
+                v = gen_value(rng, r, g.env, g.mod)
+            except Exception as e:
+                run.notes.append(f"value generation failed for {r!r}: {e!r}")
+                continue
+            rec = coreprop.Record(g, ri, v)
+            rec.wire = g.add("m", ri, v)
+            pool = [("valid", v)]
+            if rec.wire[0] == "ok":
+                pool.append(("wire", rec.wire[1]))
+                if coregen.jsonable(rec.wire[1]):
+                    pool.append(("json", json.dumps(rec.wire[1])))
+            pool.append(("unrelated", rng.choice(coregen.UNRELATED)))
+            for tag, x in pool:
+                rec.inputs.append((tag, x, g.add("u", ri, x)))
+            records.append(rec)
 
 
 def correspond(run: lib.Run):
@@ -185,7 +262,8 @@ def correspond(run: lib.Run):
     for a in anns:
         heads[a[0]] = heads.get(a[0], 0) + 1
     dist = {"annotations": len(anns), "heads": heads,
-            "observed_raise": sum(1 for g in groups for c in g.cases if "Raise" in c[3])}
+            "observed_raise": sum(1 for g in groups for c in g.cases if "Raise" in c[3]),
+            "shared_sub_annotation_stratum": {k: v for k, v in run._c15_shared.items() if k != "oracle_specs"}}
     run.record_corr("reference-semantics-vs-implementation", ncases, [g.cases[i][4] for g, i in bs], distinct, dist)
     run.record_corr("mechanism-on-observed-order-vs-implementation", ncases, [g.cases[i][4] for g, i in bm], distinct, dist)
     run.record_corr("mechanism-vs-reference-semantics", ncases, [g.cases[i][4] for g, i in ba], distinct, dist)
@@ -193,6 +271,9 @@ def correspond(run: lib.Run):
         run.samples.append(groups[0].cases[-1][4])
     # the order contract assumed by this property's theorems is decided through the graph model (notes/bridge.md)
     bridgetie.bridge_obligations(run, groups, "c15")
+    # which routine class each head gets (incl. the pass-through family: Any, object, TypeVar, Callable, type[...], bare
+    # generics, classes without hints) is a theorem over the live _HANDLERS tables (dyn/Dispatch), no longer tie-only
+    lib.run_tie(run, dispatchtie, streams=False, core=True, groups=groups, tag="c15")
 
 
 # ----------------------------------------------------------------------------------
@@ -207,15 +288,23 @@ def _alarm(signum, frame):
     raise Timeout()
 
 
+NOOP_FALLBACK = "Will default to no-op"
+FALLBACKS: list = []        # no-op fallbacks the structured routines reported during the last construct_all()
+
+
 def construct_all(t):
     from typelib import codec, marshals, unmarshals
     out = {}
+    del FALLBACKS[:]
     for name, f in (("unmarshaller", unmarshals.unmarshaller), ("marshaller", marshals.marshaller), ("codec", codec)):
         signal.alarm(10)
         try:
-            with warnings.catch_warnings():
-                warnings.simplefilter("ignore")
-                out[name] = ("ok", f(t))
+            with warnings.catch_warnings(record=True) as ws:
+                warnings.simplefilter("always")
+                try:
+                    out[name] = ("ok", f(t))
+                finally:
+                    FALLBACKS.extend(f"{name}: {w.message}"[:300] for w in ws if NOOP_FALLBACK in str(w.message))
         except Timeout:
             out[name] = ("timeout", None)
         except RecursionError:
@@ -225,6 +314,14 @@ def construct_all(t):
         finally:
             signal.alarm(0)
     return out
+
+
+def bad_fallbacks():
+    """no-op fallbacks of the last construct_all() at members whose annotation CAN be resolved.  The structured
+    routines warn when they find no routine for a member and fall back to a no-op; on /repo HEAD that happens for
+    members annotated typing.Any (also: a free TypeVar, no annotation) and for nothing else -- the designed
+    pass-through.  Any other member is one the library resolves, so a no-op there is not a working routine."""
+    return [w for w in FALLBACKS if "Original ref: typing.Any," not in w]
 
 
 def category(src):
@@ -304,6 +401,123 @@ def oracle_behaviour(cat, src, t, mod):
     return out
 
 
+class SkipBehaviour(Exception):
+    pass
+
+
+SENTINELS = {"callable": lambda: (lambda x: str(x)), "type-of": lambda: int, "literal": lambda: 1}
+
+
+def sentinel_value(d, env, mod, sentinel):
+    """a valid value of d with exactly one member per container and `sentinel` at the oracle-only positions"""
+    k = d[0]
+    if k == "leaf":
+        if d[1] in c15_shared.ORACLE_SRCS:
+            return sentinel
+        return {"int": 7, "str": "s"}[d[1]]
+    try:
+        if k == "seq":
+            return universe.SEQ_PY[d[1]]([sentinel_value(d[3], env, mod, sentinel)])
+        if k == "map":
+            return {sentinel_value(d[3], env, mod, sentinel): sentinel_value(d[4], env, mod, sentinel)}
+    except TypeError:
+        raise SkipBehaviour("a member that cannot be hashed in a set / as a key: no non-empty valid value")
+    if k == "tuple":
+        return tuple(sentinel_value(x, env, mod, sentinel) for x in d[2])
+    if k == "union":
+        if d[1] != "Optional":
+            raise SkipBehaviour("which member of a union takes the value is the union's business (C08)")
+        return sentinel_value(d[2][0], env, mod, sentinel)
+    if k == "name":
+        df = env["defs"][d[1]]
+        return getattr(mod, universe.cname(d[1]))(**{f: sentinel_value(t, env, mod, sentinel) for f, t, _ in df[3]})
+    raise SkipBehaviour(k)
+
+
+def occurrences(x, sentinel, depth=0):
+    if x is sentinel:
+        return 1
+    if depth > 12:
+        return 0
+    if isinstance(x, dict):
+        return sum(occurrences(a, sentinel, depth + 1) + occurrences(b, sentinel, depth + 1) for a, b in x.items())
+    if isinstance(x, (list, tuple, set, frozenset)):
+        return sum(occurrences(a, sentinel, depth + 1) for a in x)
+    if hasattr(x, "__dict__") and not isinstance(x, type) and type(x).__module__.startswith("verif_core"):
+        return sum(occurrences(a, sentinel, depth + 1) for a in vars(x).values())
+    return 0
+
+
+def check_oracle_spec(spec, stats, shared):
+    """PARENT(C1[g], C2[g]) for an oracle-only generic g: constructed, repeatable, and a valid value travels
+    through both directions with the object at the g positions handed through as it is"""
+    from typelib import marshals, unmarshals
+    env = {"module": coregen.new_module_name("c15o"), "defs": {}}
+    d = c15_shared.realise(spec, c15_shared.Alloc(env))
+    if d is None:
+        shared["not_generated"] = shared.get("not_generated", 0) + 1
+        return []
+    try:
+        mod, tys, src = universe.materialise(env, [d])
+    except Exception as e:
+        shared["not_materialised"] = shared.get("not_materialised", 0) + 1
+        return []
+    shared["oracle_only"] = shared.get("oracle_only", 0) + 1
+    ann = universe.src_ty(d, env)
+    base = {"annotation": ann, "category": "shared-sub-annotation", "shape": c15_shared.spec_label(spec),
+            "spec": list(spec), "module_source": src}
+    out = []
+    try:
+        t = tys[0]
+        impl.clear_caches()
+        res = construct_all(t)
+        stats["evaluations"] += 1
+        bad = {k: v[1] or v[0] for k, v in res.items() if v[0] != "ok"}
+        if bad:
+            return [dict(base, symptom="construction failed", got=bad, key="C15-construct-" + ann)]
+        stats["nontrivial"] += 1
+        if bad_fallbacks():
+            out.append(dict(base, symptom="a member with a resolvable annotation got the no-op fallback",
+                            got=bad_fallbacks()[:3], key="C15-fallback-" + ann))
+        second = construct_all(t)
+        impl.clear_caches()
+        third = construct_all(t)
+        if any(v[0] != "ok" for v in list(second.values()) + list(third.values())):
+            out.append(dict(base, symptom="construction is not repeatable", key="C15-repeat-" + ann))
+        sentinel = SENTINELS[spec[0]]()
+        try:
+            v = sentinel_value(d, env, mod, sentinel)
+        except SkipBehaviour:
+            shared["behaviour_skipped"] = shared.get("behaviour_skipped", 0) + 1
+            return out
+        want = occurrences(v, sentinel)
+        has_set = any(s[0] == "seq" and s[1] in ("KSet", "KFrozenset") for s in c15_shared.subdescs_env(d, env))
+        # a composite in key position marshals to a list / dict, which no dict can have as a key: what the marshaller
+        # of such a mapping does with a non-empty value is not this property's business -- unmarshal side only
+        composite_key = any(s[0] == "map" and any(k[0] in ("seq", "tuple", "map", "name") for k in universe.subdescs(s[3], []))
+                            for s in c15_shared.subdescs_env(d, env))
+        for name, call in (("unmarshal", lambda: unmarshals.unmarshal(t, v)), ("marshal", lambda: marshals.marshal(v, t=t))):
+            if composite_key and name == "marshal":
+                continue
+            impl.clear_caches()
+            try:
+                with warnings.catch_warnings():
+                    warnings.simplefilter("ignore")
+                    r = call()
+            except BaseException as e:
+                out.append(dict(base, symptom="routine of a valid annotation raised on a valid value with pass-through positions",
+                                got=f"{name}: {e!r}"[:200], key="C15-behave-" + ann))
+                continue
+            got = occurrences(r, sentinel)
+            if (got < 1) if has_set else (got != want):
+                out.append(dict(base, symptom="unresolvable position is not pass-through",
+                                got=f"{name}: {r!r}"[:200], key="C15-behave-" + ann))
+        shared["behaviour_checked"] = shared.get("behaviour_checked", 0) + 1
+    finally:
+        impl.drop_module(env["module"])
+    return out
+
+
 def class_topologies(run, stats):
     import itertools as it
     from props import c07
@@ -332,9 +546,28 @@ def class_topologies(run, stats):
                                   "module_source": src, "got": bad, "key": "C15-topology-" + repr(topo)})
                     break
                 stats["nontrivial"] += 1
+                if bad_fallbacks():
+                    fails.append({"symptom": "a member with a resolvable annotation got the no-op fallback",
+                                  "annotation": f"N{n}", "category": "class-topology", "module_source": src,
+                                  "got": bad_fallbacks()[:3], "key": "C15-topology-fallback-" + repr(topo)})
+                    break
         finally:
             impl.drop_module(env["module"])
     return fails
+
+
+def corpus_cases():
+    import glob
+    import os
+    out = []
+    for p in sorted(glob.glob(os.path.join(lib.VERIF, "corpus", "C15", "*.json"))):
+        try:
+            data = json.load(open(p))
+        except Exception:
+            continue
+        for i, c in enumerate(data if isinstance(data, list) else [data]):
+            out.append((f"{os.path.basename(p)}#{i}", c))
+    return out
 
 
 def search(run: lib.Run, broken):
@@ -344,6 +577,22 @@ def search(run: lib.Run, broken):
         groups, records, anns = build_groups(run)
     fails, stats = [], {"evaluations": 0, "nontrivial": 0}
     signal.signal(signal.SIGALRM, _alarm)
+    # 0. corpus: minimised regression inputs (replay payloads), run first
+    ncorpus = 0
+    for fn, payload in corpus_cases():
+        ncorpus += 1
+        stats["evaluations"] += 1
+        try:
+            r = replay(payload)
+        except BaseException as e:
+            run.notes.append(f"corpus case {fn} could not be evaluated: {e!r}")
+            continue
+        if r.get("fails"):
+            fails.append(dict(payload, symptom=payload.get("symptom", "corpus case fails"), corpus=fn,
+                              got=r.get("got") or r.get("no_op_fallbacks_at_resolvable_members"),
+                              key="C15-corpus-" + fn))
+        else:
+            stats["nontrivial"] += 1
     # 1. construction on the modelled grammar + repeatability + pass-through
     for g in groups:
         for ri, t in enumerate(g.pytys):
@@ -353,10 +602,28 @@ def search(run: lib.Run, broken):
             stats["evaluations"] += 1
             bad = {k: v for k, v in first.items() if v[0] != "ok"}
             if bad:
-                fails.append({"symptom": "construction failed", "annotation": src, "category": "modelled-grammar",
-                              "got": {k: v[1] or v[0] for k, v in bad.items()}, "key": "C15-construct-" + src})
+                f = {"symptom": "construction failed", "annotation": src, "category": "modelled-grammar",
+                     "got": {k: v[1] or v[0] for k, v in bad.items()}, "key": "C15-construct-" + src}
+                if g.env["defs"]:
+                    f["module_source"] = g.src
+                    f["key"] += "@" + g.env["module"]
+                if getattr(g, "c15_labels", None):
+                    f["category"] = "shared-sub-annotation"
+                    f["shape"] = g.c15_labels[ri]
+                fails.append(f)
                 continue
             stats["nontrivial"] += 1
+            fb = bad_fallbacks()
+            if fb:
+                f = {"symptom": "a member with a resolvable annotation got the no-op fallback", "annotation": src,
+                     "category": "modelled-grammar", "got": fb[:3], "key": "C15-fallback-" + src}
+                if g.env["defs"]:
+                    f["module_source"] = g.src
+                    f["key"] += "@" + g.env["module"]
+                if getattr(g, "c15_labels", None):
+                    f["category"] = "shared-sub-annotation"
+                    f["shape"] = g.c15_labels[ri]
+                fails.append(f)
             second = construct_all(t)            # served from the caches
             impl.clear_caches()
             third = construct_all(t)             # rebuilt
@@ -419,12 +686,21 @@ def search(run: lib.Run, broken):
                 fails += oracle_behaviour(cat, src, t, mod)
     finally:
         impl.drop_module("verif_c15_oracle")
+    # 2b. the shared sub-annotation stratum over the oracle-only generics (Callable[[..], ..], type[X], Literal)
+    shared = getattr(run, "_c15_shared", None) or {"oracle_specs": []}
+    for spec in shared["oracle_specs"]:
+        fails += check_oracle_spec(spec, stats, shared)
+    # 2c. rebuild histories in which only some caches are cleared
+    hfails, hcounts = c15_hist.stream(run, records, universe.PRELUDE, stats)
+    fails += hfails
     # 3. user classes: construction over class graphs (cycles, diamonds, crosswise same-named members), one edge
     #    kind at a time exhaustively over 3 classes with <= 2 members each, plus mixed kinds at random
     fails += class_topologies(run, stats)
     run.search_stats["oracle"] = {
         "evaluations": stats["evaluations"], "distinct_nontrivial": stats["nontrivial"],
         "annotations": len(anns), "failures": len(fails),
+        "shared_sub_annotation_stratum": {k: v for k, v in shared.items() if k != "oracle_specs"},
+        "rebuild_histories": hcounts, "corpus_cases": ncorpus,
         "rule": "extended constructor grammar: leaves {int, str, Decimal, Any, object, bare list/dict/tuple/set, "
                 "typing.List/Dict/Sequence/Mapping, Callable, user Generic[T] parameterised, classes without hints} "
                 "+ TypeVars (free/bound/constrained) as generic arguments, closed under list/tuple[...]/dict/Optional/"
@@ -432,13 +708,27 @@ def search(run: lib.Run, broken):
                 "Callable[[..], ..], type[X], bare Generic classes at root and nested (oracle only). For each: "
                 "marshaller/unmarshaller/codec constructed within 10 s, again from the caches and after clearing them, "
                 "same behaviour after a rebuild, unresolvable positions return the very object; non-trivial = all "
-                "three routines were constructed",
+                "three routines were constructed.  Round 3: (a) shared sub-annotation stratum (c15_shared): "
+                "PARENT(C1[g], C2[g]) for generic g, context paths of length 0-2, parents tuple / dict / union / class in "
+                "both orders, and the singles C[g] of depth 2 -- modelled g through the same checks as the grammar, "
+                "oracle-only g constructed, repeatable and pass-through by identity; (b) rebuild histories "
+                "(c15_hist): fresh state, build, cache_clear() of a SUBSET of the caches (every subset of the public "
+                "ones, each discoverable cache alone, all but one), build again: same construction outcome and same "
+                "behaviour on the inputs",
     }
     coreprop.close(groups)
     return fails
 
 
 def replay(payload):
+    if payload.get("cleared") is not None:
+        return c15_hist.replay(payload, universe.PRELUDE)
+    if payload.get("spec") is not None:
+        sp = payload["spec"]
+        spec = (sp[0], tuple(sp[1]), None if sp[2] is None else tuple(sp[2]), None if sp[3] is None else tuple(sp[3]))
+        signal.signal(signal.SIGALRM, _alarm)
+        fs = check_oracle_spec(spec, {"evaluations": 0, "nontrivial": 0}, {})
+        return {"fails": bool(fs), "got": [f.get("got") for f in fs], "symptoms": [f["symptom"] for f in fs]}
     mod = impl.new_module("verif_c15_replay", payload.get("module_source") or universe.PRELUDE)
     try:
         t = eval(payload["annotation"], mod.__dict__)
@@ -446,7 +736,8 @@ def replay(payload):
         signal.signal(signal.SIGALRM, _alarm)
         res = construct_all(t)
         bad = {k: v[1] or v[0] for k, v in res.items() if v[0] != "ok"}
-        return {"fails": bool(bad), "got": bad}
+        fb = bad_fallbacks()
+        return {"fails": bool(bad) or bool(fb), "got": bad, "no_op_fallbacks_at_resolvable_members": fb[:3]}
     finally:
         impl.drop_module("verif_c15_replay")
 
